@@ -1,6 +1,558 @@
 package main
 
-import "olverif/internal/verdict"
+import (
+	"encoding/json"
+	"fmt"
+	"math/rand"
+	"os"
+	"path/filepath"
+	"sort"
+	"strings"
+	"sync"
 
-// runProbes executes the isolated hostile probes that belong to property own.
-func runProbes(r *verdict.Run, own, tier string) {}
+	"github.com/Oneledger/protocol/action"
+	"github.com/Oneledger/protocol/data/keys"
+
+	"olverif/internal/boxcli"
+	"olverif/internal/drive"
+	"olverif/internal/gen"
+	"olverif/internal/hist"
+	"olverif/internal/ledger"
+	"olverif/internal/mon"
+	"olverif/internal/proto"
+	"olverif/internal/txb"
+	"olverif/internal/verdict"
+	"olverif/internal/world"
+)
+
+// warm is a warmed-up chain frozen as a directory snapshot that probes fork.
+type warm struct {
+	w        *world.World
+	dir      string // snapshot of the leader's node directory (box stopped)
+	keyring  string
+	h        int64
+	state    hist.State
+	planned  []hist.TxSpec // honest transactions the scripts would send next
+	accounts map[string]*world.Account
+	seed     int64
+	n        int64
+	mu       sync.Mutex
+	empty    map[int]hist.State // state after k empty blocks on a fork (memoised)
+}
+
+func allAccounts(w *world.World) map[string]*world.Account {
+	m := map[string]*world.Account{}
+	for _, u := range w.Users {
+		m[u.Addr.String()] = u
+	}
+	for _, u := range w.EthUsers {
+		m[u.Addr.String()] = u
+	}
+	for _, v := range w.Vals {
+		m[v.Stake.Addr.String()] = &v.Stake
+		m[v.ValAddr.String()] = gen.ConsAccount(v)
+	}
+	return m
+}
+
+// makeWarm runs the mixed scripts for `blocks` blocks, asks the scripts what
+// they would send next, stops the node and keeps its directory.
+func makeWarm(seed int64, blocks int, fr int64, scripts []string) (*warm, error) {
+	params := world.Params{Frankenstein: fr, NumCandidates: 3, NumEthUsers: 3, TopValidators: 5, ChainID: fmt.Sprintf("OneLedger-warm-%d-%d", seed, blocks)}
+	wm := &warm{seed: seed, empty: map[int]hist.State{}}
+	cfg := drive.Cfg{Tag: "warm", Seed: seed, Blocks: blocks, Params: params, Scripts: scripts, Scout: true, KeepAll: true}
+	var plannedNext []hist.TxSpec
+	// the planning of block `blocks+1` happens in FilterPlan of an extra step that is not executed:
+	cfg.Blocks = blocks + 1
+	cfg.FilterPlan = func(c *gen.Ctx, specs []hist.TxSpec) []hist.TxSpec {
+		if c.H == int64(blocks)+1 {
+			plannedNext = append([]hist.TxSpec{}, specs...)
+			return nil // last block stays empty; its planned traffic becomes probe material
+		}
+		if c.H >= int64(blocks)-1 {
+			plannedNext = append(plannedNext, specs...)
+		}
+		return specs
+	}
+	res := drive.Run(cfg)
+	if res.Err != nil {
+		if res.R != nil {
+			res.R.Close()
+		}
+		return nil, res.Err
+	}
+	r := res.R
+	wm.w = res.W
+	wm.h = r.H
+	wm.state = r.State
+	wm.keyring = r.Keyring
+	wm.accounts = allAccounts(res.W)
+	// planned traffic: only what the scripts planned for the never-executed block
+	var fresh []hist.TxSpec
+	done := map[string]bool{}
+	for _, b := range r.Blocks {
+		for _, t := range b.Txs {
+			done[string(t.Bytes)] = true
+		}
+	}
+	for _, s := range plannedNext {
+		if !done[string(s.Bytes)] {
+			fresh = append(fresh, s)
+		}
+	}
+	// bases for hostile variants: the planned traffic plus the latest successful
+	// transactions of every kind seen during the warm-up (variants are re-signed
+	// with a fresh memo, so they are new transactions)
+	perKind := map[string]int{}
+	for _, s := range fresh {
+		perKind[s.Kind]++
+	}
+	for bi := len(r.Blocks) - 1; bi >= 0; bi-- {
+		for _, t := range r.Blocks[bi].Txs {
+			if t.Call.Code == 0 && perKind[t.Kind] < 2 {
+				perKind[t.Kind]++
+				fresh = append(fresh, t.TxSpec)
+			}
+		}
+	}
+	wm.planned = fresh
+	r.Reps[0].Box.Quit()
+	if r.Scout != nil {
+		r.Scout.Box.Kill()
+	}
+	wm.dir = r.Reps[0].Root
+	return wm, nil
+}
+
+// fork copies the snapshot and boots a box on the copy.
+func (wm *warm) fork() (*boxcli.Box, string, error) {
+	wm.mu.Lock()
+	wm.n++
+	n := wm.n
+	wm.mu.Unlock()
+	dir := filepath.Join(filepath.Dir(wm.dir), fmt.Sprintf("fork-%d", n))
+	if err := boxcli.CopyDir(wm.dir, dir); err != nil {
+		return nil, dir, err
+	}
+	b, err := boxcli.Start(fmt.Sprintf("fork-%d", n), dir, wm.keyring, nil, nil)
+	return b, dir, err
+}
+
+// probeOut is what one probe observed.
+type probeOut struct {
+	CheckCode   uint32
+	CheckLog    string
+	Checked     bool
+	Included    bool
+	Deliver     proto.Call
+	Died        bool
+	DiedAt      string
+	ExitCode    int
+	Signal      string
+	Panicked    bool
+	LogTail     string
+	States      []hist.State // state after each block (first = block containing the tx)
+	Blocks      []*hist.Block
+	LivenessOK  bool
+	LivenessLog string
+	Err         error
+}
+
+// runProbe executes one transaction on a fork. check: issue CheckTx first;
+// force: include it whatever CheckTx said; follow: number of empty blocks after.
+func (wm *warm) runProbe(tx []byte, spec hist.TxSpec, check, force bool, follow int, liveness bool) *probeOut {
+	out := &probeOut{}
+	b, dir, err := wm.fork()
+	defer os.RemoveAll(dir)
+	if err != nil {
+		out.Err = err
+		return out
+	}
+	defer b.Kill()
+	died := func(at string) *probeOut {
+		out.Died, out.DiedAt, out.ExitCode, out.Signal = true, at, b.ExitCode, b.Signal
+		out.LogTail = b.LogTail(2500)
+		return out
+	}
+	include := force
+	if check {
+		resp, err := b.Check(tx)
+		if err != nil {
+			if err == boxcli.ErrTimeout {
+				out.Err = err
+				return out
+			}
+			return died("CheckTx")
+		}
+		out.Checked = true
+		for _, c := range resp.Calls {
+			if c.M == "CheckTx" {
+				out.CheckCode, out.CheckLog = c.Code, c.Log
+			}
+		}
+		if resp.Panicked {
+			out.Panicked = true
+			out.DiedAt = "CheckTx"
+			out.LogTail = b.LogTail(2500)
+		}
+		if out.CheckCode == 0 && !resp.Panicked {
+			include = true
+		}
+	}
+	prev := wm.state
+	for k := 0; k <= follow; k++ {
+		rc := &proto.Recipe{DtMs: 5000, Dump: true}
+		if k == 0 && include {
+			rc.Txs = [][]byte{tx}
+			out.Included = true
+		}
+		resp, err := b.Block(rc)
+		if err != nil {
+			if err == boxcli.ErrTimeout {
+				out.Err = err
+				return out
+			}
+			return died(fmt.Sprintf("block+%d", k))
+		}
+		if resp.Err != "" || resp.ApplyErr != "" {
+			out.Err = fmt.Errorf("block+%d: %s%s", k, resp.Err, resp.ApplyErr)
+			out.LogTail = b.LogTail(1500)
+			if resp.Panicked {
+				out.Panicked = true
+				out.DiedAt = fmt.Sprintf("block+%d", k)
+			}
+			return out
+		}
+		blk := &hist.Block{H: resp.Height, Prev: prev, Recipe: rc}
+		for _, c := range resp.Calls {
+			switch c.M {
+			case "BeginBlock":
+				blk.Begin = c
+			case "EndBlock":
+				blk.End = c
+			case "Commit":
+				blk.Commit = c
+			case "DeliverTx":
+				if k == 0 {
+					out.Deliver = c
+					blk.Txs = append(blk.Txs, hist.TxResult{TxSpec: spec, Call: c})
+				}
+			}
+		}
+		cur := prev.Apply(resp.Dump, resp.DumpFull)
+		blk.Cur = cur
+		out.States = append(out.States, cur)
+		out.Blocks = append(out.Blocks, blk)
+		prev = cur
+		if resp.Panicked {
+			out.Panicked = true
+			out.DiedAt = fmt.Sprintf("block+%d", k)
+			out.LogTail = b.LogTail(2500)
+			return out
+		}
+	}
+	if liveness {
+		// a plain transfer that works on an untouched fork must still work
+		u := wm.w.Users[1]
+		ltx := txb.Tx(txb.Send(u.Addr, wm.w.Users[2].Addr, "VT", "1"), txb.DefaultFee(), fmt.Sprintf("liveness-%d", wm.n), u)
+		resp, err := b.Check(ltx)
+		if err != nil {
+			return died("liveness-check")
+		}
+		code := uint32(99)
+		for _, c := range resp.Calls {
+			if c.M == "CheckTx" {
+				code, out.LivenessLog = c.Code, c.Log
+			}
+		}
+		if code == 0 {
+			resp2, err := b.Block(&proto.Recipe{DtMs: 5000, Txs: [][]byte{ltx}})
+			if err != nil {
+				return died("liveness-block")
+			}
+			for _, c := range resp2.Calls {
+				if c.M == "DeliverTx" {
+					out.LivenessOK = c.Code == 0
+					out.LivenessLog = c.Log
+				}
+			}
+			if resp2.Panicked {
+				out.Panicked = true
+				out.DiedAt = "liveness-block"
+			}
+		}
+	}
+	return out
+}
+
+// emptyStates returns the states after 1..k+1 empty blocks on an untouched
+// fork (the twin every probe is compared with).
+func (wm *warm) emptyStates(follow int) ([]hist.State, error) {
+	wm.mu.Lock()
+	if st, ok := wm.empty[follow]; ok {
+		_ = st
+	}
+	wm.mu.Unlock()
+	o := wm.runProbe(nil, hist.TxSpec{}, false, false, follow, false)
+	if o.Err != nil || o.Died {
+		return nil, fmt.Errorf("empty twin failed: %v died=%v %s", o.Err, o.Died, o.LogTail)
+	}
+	return o.States, nil
+}
+
+// ---------------------------------------------------------------- hostile payloads
+
+type hostile struct {
+	Spec  hist.TxSpec
+	Kind  string
+	Field string
+	Trait string
+}
+
+var amountTraits = []struct{ name, val string }{
+	{"-1", "-1"}, {"-(2^64-1)", "-18446744073709551615"}, {"0", "0"}, {"2^63-1", "9223372036854775807"}, {"2^63", "9223372036854775808"},
+	{"2^64+1", "18446744073709551617"}, {"10^40", "10000000000000000000000000000000000000000"}, {"-10^30", "-1000000000000000000000000000000"},
+}
+
+var currencyTraits = []struct{ name, val string }{{"VT", "VT"}, {"ETH", "ETH"}, {"unknown", "XYZ"}, {"empty", ""}}
+
+// isAmountObj recognises {"currency":..,"value":..}.
+func isAmountObj(v interface{}) (map[string]interface{}, bool) {
+	m, ok := v.(map[string]interface{})
+	if !ok {
+		return nil, false
+	}
+	_, c := m["currency"]
+	_, val := m["value"]
+	return m, c && val && len(m) == 2
+}
+
+// resign rebuilds a signed transaction with a new payload, signed by the same
+// signers (their keys are the harness's).
+func (wm *warm) resign(base hist.TxSpec, payload []byte) ([]byte, bool) {
+	st := &action.SignedTx{}
+	if err := json.Unmarshal(base.Bytes, st); err != nil {
+		return nil, false
+	}
+	raw := st.RawTx
+	raw.Data = payload
+	raw.Memo = raw.Memo + "-h"
+	var privs []keys.PrivateKey
+	for _, s := range base.Signers {
+		a, ok := wm.accounts[s]
+		if !ok {
+			return nil, false
+		}
+		privs = append(privs, a.Priv)
+	}
+	return txb.Pack(raw, txb.SignWith(raw, privs...)), true
+}
+
+// hostileVariants derives, from an honest transaction, correctly signed
+// variants with one hostile field each.
+func (wm *warm) hostileVariants(base hist.TxSpec, rng *rand.Rand, perField int) []hostile {
+	if base.Kind == "OLVM" {
+		return nil // OLVM payloads are signed EIP-155 style; covered by the OLVM probes
+	}
+	st := &action.SignedTx{}
+	if err := json.Unmarshal(base.Bytes, st); err != nil {
+		return nil
+	}
+	var payload map[string]interface{}
+	if err := json.Unmarshal(st.Data, &payload); err != nil {
+		return nil
+	}
+	var out []hostile
+	add := func(field, trait string, mutate func(p map[string]interface{})) {
+		var p map[string]interface{}
+		_ = json.Unmarshal(st.Data, &p)
+		mutate(p)
+		bz, err := json.Marshal(p)
+		if err != nil {
+			return
+		}
+		tx, ok := wm.resign(base, bz)
+		if !ok {
+			return
+		}
+		sp := base
+		sp.Bytes = tx
+		sp.Trait = trait
+		sp.Field = field
+		sp.Note = base.Note + " [" + field + ":" + trait + "]"
+		out = append(out, hostile{Spec: sp, Kind: base.Kind, Field: field, Trait: trait})
+	}
+	fields := make([]string, 0, len(payload))
+	for f := range payload {
+		fields = append(fields, f)
+	}
+	sort.Strings(fields)
+	otherAddr := wm.w.Users[5%len(wm.w.Users)].Addr.String()
+	poolAddr := mon.DelegationPool
+	for _, f := range fields {
+		f := f
+		v := payload[f]
+		if am, ok := isAmountObj(v); ok {
+			_ = am
+			for _, t := range pickN(rng, len(amountTraits), perField) {
+				tr := amountTraits[t]
+				add(f, "amount="+tr.name, func(p map[string]interface{}) { p[f].(map[string]interface{})["value"] = tr.val })
+			}
+			for _, t := range pickN(rng, len(currencyTraits), 2) {
+				tr := currencyTraits[t]
+				add(f, "currency="+tr.name, func(p map[string]interface{}) { p[f].(map[string]interface{})["currency"] = tr.val })
+			}
+			continue
+		}
+		switch x := v.(type) {
+		case string:
+			if strings.HasPrefix(x, "0lt") {
+				add(f, "address=other-user", func(p map[string]interface{}) { p[f] = otherAddr })
+				add(f, "address=pool", func(p map[string]interface{}) { p[f] = poolAddr })
+				add(f, "address=empty", func(p map[string]interface{}) { p[f] = "" })
+				add(f, "address=short", func(p map[string]interface{}) { p[f] = "0lt0102" })
+			} else if _, isNum := bigOK(x); isNum && len(x) > 0 {
+				// amounts that travel as bare decimal strings (e.g. fundingGoal)
+				for _, t := range pickN(rng, len(amountTraits), 2) {
+					tr := amountTraits[t]
+					add(f, "amount="+tr.name, func(p map[string]interface{}) { p[f] = tr.val })
+				}
+			} else {
+				add(f, "string=empty", func(p map[string]interface{}) { p[f] = "" })
+			}
+		case float64:
+			add(f, "int=-1", func(p map[string]interface{}) { p[f] = -1 })
+			add(f, "int=huge", func(p map[string]interface{}) { p[f] = 9223372036854775807 })
+			add(f, "int=0", func(p map[string]interface{}) { p[f] = 0 })
+		case nil:
+		default:
+			add(f, "null", func(p map[string]interface{}) { p[f] = nil })
+		}
+	}
+	return out
+}
+
+func bigOK(s string) (bool, bool) {
+	if s == "" {
+		return false, false
+	}
+	for i, c := range s {
+		if !(c >= '0' && c <= '9') && !(i == 0 && c == '-') {
+			return false, false
+		}
+	}
+	return true, true
+}
+
+func pickN(rng *rand.Rand, n, k int) []int {
+	p := rng.Perm(n)
+	if k > n {
+		k = n
+	}
+	return p[:k]
+}
+
+// ---------------------------------------------------------------- C02/C03 probes
+
+// runProbes executes the isolated hostile probes of the ledger properties:
+// each hostile variant goes through honest admission on its own fork, then the
+// ledger monitors watch that block and the blocks past every maturity.
+func runProbes(r *verdict.Run, own, tier string) {
+	seed := verdict.Seed()
+	heights := []int{9, 16}
+	per := 2
+	if tier == "thorough" {
+		heights = []int{7, 12, 18, 26, 34}
+		per = 8
+	}
+	var warms []*warm
+	var wmu sync.Mutex
+	parallel(len(heights), 4, func(i int) {
+		fr := int64(1)
+		wm, err := makeWarm(seed*100+int64(i), heights[i], fr, allScripts)
+		if err != nil {
+			r.Inconclusive(fmt.Sprintf("warm-up chain %d failed: %v", i, err))
+			return
+		}
+		wmu.Lock()
+		warms = append(warms, wm)
+		wmu.Unlock()
+	})
+	type job struct {
+		wm *warm
+		h  hostile
+	}
+	var jobs []job
+	for _, wm := range warms {
+		rng := rand.New(rand.NewSource(wm.seed))
+		seenKind := map[string]int{}
+		for _, base := range wm.planned {
+			if seenKind[base.Kind] >= 2 {
+				continue
+			}
+			seenKind[base.Kind]++
+			for _, hv := range wm.hostileVariants(base, rng, per) {
+				if own == "C02" && !strings.HasPrefix(hv.Trait, "amount=") && !strings.HasPrefix(hv.Trait, "currency=") {
+					continue
+				}
+				if own == "C03" && !strings.HasPrefix(hv.Trait, "address=") && !strings.HasPrefix(hv.Trait, "amount=-") {
+					continue
+				}
+				jobs = append(jobs, job{wm, hv})
+			}
+		}
+	}
+	r.Gate("probes", 20)
+	parallel(len(jobs), 14, func(i int) {
+		j := jobs[i]
+		o := j.wm.runProbe(j.h.Spec.Bytes, j.h.Spec, true, false, 6, false)
+		id := fmt.Sprintf("probe/%d/%s/%s/%s", j.wm.h, j.h.Kind, j.h.Field, j.h.Trait)
+		if o.Err != nil {
+			r.Diag(id + ": " + o.Err.Error())
+			r.Case(id, false)
+			return
+		}
+		r.Case(id, o.Included)
+		r.Count("probes", 1)
+		if o.Included {
+			r.Count("probes_admitted", 1)
+		}
+		if o.Died || o.Panicked {
+			r.Diag(fmt.Sprintf("%s: node died/panicked at %s (decided by C18)", id, o.DiedAt))
+			return
+		}
+		eoas := eoaSet(j.wm.w)
+		var prevL *ledger.Ledger
+		for _, blk := range o.Blocks {
+			cur := ledger.Decode(blk.Cur, nil)
+			if len(cur.Unknown) > 0 || len(cur.Bad) > 0 {
+				r.Inconclusive(fmt.Sprintf("ledger decoder: unknown %q bad %q in %s", first(cur.Unknown, 2), first(cur.Bad, 2), id))
+				return
+			}
+			if prevL == nil {
+				prevL = ledger.Decode(blk.Prev, nil)
+			}
+			var fs []mon.Finding
+			fs = append(fs, mon.C02(prevL, cur, blk, mon.WrappedAllowance(blk))...)
+			fs = append(fs, mon.C03(prevL, cur, blk, eoas, stakeMap(blk.Prev), mon.GuiltyIn(blk))...)
+			prevL = cur
+			for _, f := range fs {
+				// attribute to the probe's single hostile input
+				parts := strings.SplitN(f.Sig, "/", 4)
+				sig := f.Sig
+				if len(parts) >= 3 {
+					sig = strings.Join(parts[:3], "/") + "/" + j.h.Kind + "." + j.h.Field + "/" + j.h.Trait
+				}
+				if f.Prop != own {
+					r.Diag(sig + ": " + f.What)
+					continue
+				}
+				r.Violate(verdict.Violation{Property: f.Prop, Signature: sig, What: fmt.Sprintf("probe on a warmed-up chain (height %d): %s with %s=%s passed admission and was delivered (code %d): %s", j.wm.h, j.h.Kind, j.h.Field, j.h.Trait, o.Deliver.Code, f.What), Witness: map[string]interface{}{"warm_seed": j.wm.seed, "warm_height": j.wm.h, "tx": string(j.h.Spec.Bytes), "kind": j.h.Kind, "field": j.h.Field, "trait": j.h.Trait}})
+				return
+			}
+		}
+	})
+	if len(jobs) > 0 {
+		r.Sample(map[string]interface{}{"probe": jobs[0].h.Kind + "." + jobs[0].h.Field + " " + jobs[0].h.Trait, "tx": cut(string(jobs[0].h.Spec.Bytes), 400)})
+	}
+}
